@@ -135,7 +135,8 @@ Eol == IF FaultSel = "base" /\ MaxCall = 1 /\ MaxNest = 1 /\ ~Rich THEN {"crlf",
 Pre == IF Rich THEN 0..3 ELSE {0}
 CsNest == IF Rich THEN {"none", "if", "for", "select", "oneline"} ELSE {"none"}
 \* 1: a division by zero, 2: a failing built-in function (which has a context and a call-stack entry of its own)
-Prior == IF Rich THEN 0..2 ELSE IF FaultSel = "base" THEN {0, 2} ELSE {0}
+\* 3: the earlier error happens two procedures deep and is answered with RESUME label (the procedures are abandoned)
+Prior == IF Rich THEN 0..3 ELSE IF FaultSel = "base" THEN {0, 2, 3} ELSE {0}
 \* calls that have already RETURNED before each call site and before the fault (the call stack must forget them)
 Helpers == IF Rich THEN 0..2 ELSE {1}
 \* how each procedure of the chain is declared / entered: plain; STATIC (its own kind of activation record); "rec": it
